@@ -381,13 +381,16 @@ theorem setField_frm (o : Elem) (f : String) (x : JV) : (setField o f x).frm = o
   all_goals rfl
 
 theorem mem_stepUnwind {f : String} {t t' : Traveler} (h : t' ∈ stepUnwind f t) :
+    (t.cur = none ∧ t' = t) ∨
     ∃ cur i, t.cur = some cur ∧ t' = t.addCurrent (some (setField { cur with loaded := true } f i)) := by
   unfold stepUnwind at h
   split at h
-  · cases h
+  · rename_i hc
+    left
+    exact ⟨hc, by simpa using h⟩
   · rename_i cur hc
     obtain ⟨i, _, rfl⟩ := List.mem_map.1 h
-    exact ⟨cur, i, hc, rfl⟩
+    exact Or.inr ⟨cur, i, hc, rfl⟩
 
 section shape2
 variable {E : ToPred}
@@ -428,7 +431,8 @@ theorem ws_fields {ty : DataType} {marks : MarkTypes} {t : Traveler} (ks : List 
 theorem ws_unwind {ty : DataType} {marks : MarkTypes} {t : Traveler} (f : String)
     (h : WellShapedG E ty marks t) : ∀ t' ∈ stepUnwind f t, WellShapedG E ty marks t' := by
   intro t' ht'
-  obtain ⟨cur, i, hc, rfl⟩ := mem_stepUnwind ht'
+  rcases mem_stepUnwind ht' with ⟨_, rfl⟩ | ⟨cur, i, hc, rfl⟩
+  · exact h
   have h1 := h.1
   rw [hc] at h1
   cases ty
